@@ -2,7 +2,7 @@
    obeys the constructor contract, the guard-first contract and the parameters-are-never-reassigned
    contract, except for the committed, explicitly listed known deviations (Known.v). *)
 From Coq Require Import List String Bool.
-Require Import SkV.C04.Model SkV.C04.Table SkV.C04.Known SkV.C04.Gen.
+Require Import SkV.C04.Model SkV.C04.Cases SkV.C04.Table SkV.C04.Known SkV.C04.Gen.
 Import ListNotations.
 Open Scope string_scope.
 
@@ -118,6 +118,26 @@ Proof.
     apply String.eqb_eq in Ha, Hb, Hc. now subst.
 Qed.
 
+(* every set_params written in the package (the composites') reaches the validation of the names
+   on every completing path: no early return before `_set_params` / scikit-learn's set_params *)
+Theorem all_set_params_validate_names :
+  forall row, In row class_table -> setparams_ok row = true.
+Proof. apply forallb_forall. vm_compute. reflexivity. Qed.
+
+Theorem set_params_validates_or_is_sklearns : forall row,
+  In row class_table ->
+  r_setparams row = PX \/ (exists o, r_setparams row = PA o) \/ (exists o a, r_setparams row = PV o a).
+Proof.
+  intros row Hin. pose proof (all_set_params_validate_names row Hin) as H. unfold setparams_ok in H.
+  destruct (r_setparams row) as [|o|o a|o w]; [auto|right; left; eauto|right; right; eauto|discriminate].
+Qed.
+
+(* the composite descriptions the model is run with (Cases.sk_meta) carry, per class, the very key
+   with which that class's set_params delegates to _set_params in the source of this run *)
+Theorem model_meta_keys_are_the_delegation_keys :
+  forall row, In row class_table -> meta_tie_ok sk_meta ["FeatureUnion"] row = true.
+Proof. apply forallb_forall. vm_compute. reflexivity. Qed.
+
 (* the fitted-state model (Model.v step) is the one of sktime/base/_base.py as regenerated on this
    run: a fresh object carries the flag BaseEstimator.__init__ stores, is_fitted returns that flag,
    and an apply-type method of the model raises NotFitted exactly when check_is_fitted raises, which
@@ -138,4 +158,4 @@ Qed.
    bulk of the table: most rows pass with NO exception at all (counts are evaluated, not assumed) *)
 Definition n_rows := List.length class_table.
 Definition n_rows_clean :=
-  List.length (filter (fun r => stores_ok class_table r && guarded_ok r && params_stable_ok r && fit_ok r) class_table).
+  List.length (filter (fun r => stores_ok class_table r && guarded_ok r && params_stable_ok r && fit_ok r && setparams_ok r) class_table).
